@@ -39,6 +39,42 @@ def mw_model(c, invs, props, twins, reqs='"r1", "r2"', writers='"w1", "w2"'):
     c.parallel(thunks)
 
 
+LOCK_CFG = """SPECIFICATION %(spec)s
+CONSTANTS
+  Cfgs = {%(cfgs)s}
+  Nil = "nil"
+  Invalid = "invalid"
+  Reqs = {"r1", "r2"}
+  Writers = {"w1", "w2"}
+  Host = "r1"
+  Nested = {"w2"}
+  MBug = "none"
+  LBug = "%(bug)s"
+%(checks)s
+CHECK_DEADLOCK TRUE
+"""
+LOCK_SAFETY = ("INVARIANTS TypeOK MutualExclusion LockFreeOutside HoldsWhereItShould PassthroughHasDebugOff AbsAtomic AbsConfigAtomic\n"
+               "PROPERTIES Refinement")
+
+
+def lock_model(c):
+    """MwLock.tla: the RWMutex made explicit, calls made by the wrapped handler included. The positive run must establish that it
+    REFINES Middleware.tla, keeps no lock across an outside interaction, cannot deadlock and (under weak fairness) that every
+    started call returns; three lock-level twins must be rejected, each for its own reason."""
+    acts = ["ReqStart", "WStart", "ReadLock", "ReadState", "ReadUnlock", "ReqHeader", "ReqEmit", "ConfigRender", "ReconfValidate",
+            "WriteAnnounce", "WriteAcquire", "WriteState", "WriteUnlock"]
+    mk = lambda bug, checks=LOCK_SAFETY, spec="Spec", cfgs='"A", "B"': LOCK_CFG % dict(bug=bug, checks=checks, spec=spec, cfgs=cfgs)
+    c.parallel([
+        lambda: c.model_check("MwLock", mk("none"), tag="MwLock_" + c.pid, workers=6, must_cover=acts),
+        lambda: c.model_check("MwLock", mk("none", "PROPERTIES Termination", "FairSpec", '"A"'), tag="MwLock_live_" + c.pid, workers=4),
+        lambda: c.negative_twin("MwLock", mk("holdAcross"), tag="MwLock_neg_holdAcross", expect=["LockFreeOutside"], workers=2),
+        lambda: c.negative_twin("MwLock", mk("holdAcross", LOCK_SAFETY.replace("LockFreeOutside ", "")), tag="MwLock_neg_holdAcross_deadlock",
+                                expect=["deadlock"], workers=2),
+        lambda: c.negative_twin("MwLock", mk("checkThenAct", LOCK_SAFETY.replace("PassthroughHasDebugOff ", "")),
+                                tag="MwLock_neg_checkThenAct", expect=["refinement:Middleware"], workers=2),
+    ])
+
+
 def segment(evs, idx):
     j = idx - 1
     while j > 0 and evs[j]["ev"] != "Reset":
